@@ -3291,6 +3291,10 @@ impl Server {
             }
         }
         
+        // A key named twice is waited on once (otherwise one push of two elements wakes this client twice)
+        let mut seen_keys = std::collections::HashSet::new();
+        keys.retain(|k| seen_keys.insert(k.clone()));
+        
         // Try non-blocking first (fast path)
         for key in &keys {
             if let Some(value) = self.storage.lpop(db_index, key)? {
@@ -3361,6 +3365,10 @@ impl Server {
                 _ => return Ok(RespFrame::error("ERR invalid key format")),
             }
         }
+        
+        // A key named twice is waited on once (otherwise one push of two elements wakes this client twice)
+        let mut seen_keys = std::collections::HashSet::new();
+        keys.retain(|k| seen_keys.insert(k.clone()));
         
         // Try non-blocking first (fast path)  
         for key in &keys {
